@@ -68,7 +68,7 @@ func drawWorkload(t *core.Tape, kind int) wlInput {
 			d = append(d[:at:at], append([]byte(string(r)), d[at:]...)...)
 		}
 	}
-	if t.Chance(1, 40) {
+	if t.Chance(1, 120) {
 		// large input: several kilobytes (thresholds such as the 4 KiB default buffers)
 		rep := t.Pick(4096, 5000, 9000, 20000)/(len(d)+1) + 1
 		sep := []string{"", " ", "\n", ";\n"}[t.Draw(4)]
@@ -194,7 +194,7 @@ func RunC20(ctx *core.Ctx) *core.Violation {
 		ctx.Count("probe_focused_runs")
 		if t.Chance(1, 3) {
 			// every task on the same input (own copies): with probability 1/4 a deeply nested one
-			if t.Chance(1, 10) {
+			if t.Chance(1, 16) {
 				// stress configuration: deepest legal nesting, no pruning in visitors, maximum number of tasks
 				ins[0].data = deepInput(wlLang[ins[0].kind], t.Pick(40, 300, 900, 950))
 				ins[0].opt &^= 0x1c
